@@ -399,7 +399,31 @@ func genStub(pkg LabPkg, code string) (string, error) {
 		fmt.Fprintf(&sb, "\t\t%q: reflect.TypeOf((*%s)(nil)).Elem(),\n", t, t)
 	}
 	sb.WriteString("\t}\n}\n")
-	return sb.String(), nil
+	// imports that the copied signatures need (openapi_types, time, ...)
+	out := sb.String()
+	var extra []string
+	for _, im := range p.file.Imports {
+		path := strings.Trim(im.Path.Value, `"`)
+		name := path[strings.LastIndex(path, "/")+1:]
+		if im.Name != nil {
+			name = im.Name.Name
+		}
+		switch name {
+		case "context", "errors", "fmt", "http", "reflect", "echo", "gin", "fiber", "iris", "chi", "mux":
+			continue
+		}
+		if strings.Contains(out, " "+name+".") || strings.Contains(out, "*"+name+".") || strings.Contains(out, "]"+name+".") || strings.Contains(out, "("+name+".") {
+			if im.Name != nil {
+				extra = append(extra, fmt.Sprintf("\t%s %s\n", im.Name.Name, im.Path.Value))
+			} else {
+				extra = append(extra, fmt.Sprintf("\t%s\n", im.Path.Value))
+			}
+		}
+	}
+	if len(extra) > 0 {
+		out = strings.Replace(out, "\t\"lab/labrt\"\n", "\t\"lab/labrt\"\n"+strings.Join(extra, ""), 1)
+	}
+	return out, nil
 }
 
 func repoFingerprint() string {
